@@ -153,3 +153,23 @@ def table_dispatch(view, table_attr):
         'predicate_name' in norm(st.test.left):
       out.append((n, st.body))
   return out
+
+
+def combine_disambiguator(repo):
+  """The function that renames the variables introduced by a combine (it
+  formats '... # disambiguated with <fresh number>' with AllocateVar): today a
+  closure of DisambiguateCombineVariables; the work may equally be done by a
+  loop in DisambiguateCombineVariables itself or by a module-level function."""
+  m = repo.by_name('rule_translate')
+  hits = []
+  for q, fi in m.funcs.items():
+    has_text = any(isinstance(c, ast.Constant) and isinstance(c.value, str) and
+                   'disambiguated with' in c.value and '%' in c.value for c in walk_local(fi.node))
+    has_alloc = any(isinstance(c, ast.Call) and call_tail(c) == 'AllocateVar'
+                    for c in walk_local(fi.node))
+    if has_text and has_alloc:
+      hits.append(fi)
+  if len(hits) != 1:
+    raise AnalysisError('rule_translate: the combine-variable disambiguator is not recognised '
+                        '(%d candidates)' % len(hits))
+  return hits[0]
